@@ -43,6 +43,7 @@ import CoreDhcp.Props.GenEthernet
 import CoreDhcp.Props.GenServeLoop
 import CoreDhcp.Props.GenFileSetup
 import CoreDhcp.Props.GenRangeSetup
+import CoreDhcp.Props.GenMainReg
 open CoreDhcp
 #print axioms C20_offset_exact
 #print axioms C20_offset_symm
@@ -434,3 +435,26 @@ open CoreDhcp
 #print axioms RANGESETUP_allocator_never_refuses
 #print axioms RANGESETUP_accepted_starts_handler
 #print axioms RANGESETUP_accepted_serves_C02_C03
+#print axioms GEN_mainreg_register_eq
+#print axioms GEN_mainreg_printLoop_eq
+#print axioms GEN_mainreg_regLoop_eq
+#print axioms GEN_mainreg_registry0
+#print axioms GEN_mainreg_main_eq
+#print axioms MAINREG_flag_table
+#print axioms MAINREG_log_levels
+#print axioms MAINREG_names_distinct
+#print axioms MAINREG_registration_never_panics
+#print axioms MAINREG_registry_exact
+#print axioms MAINREG_second_registration_panics
+#print axioms MAINREG_view4
+#print axioms MAINREG_view6
+#print axioms MAINREG_unknown_name_rejected
+#print axioms MAINREG_unsupported_skipped
+#print axioms MAINREG_load_exact4
+#print axioms MAINREG_load_exact6
+#print axioms MAINREG_protocol_support
+#print axioms MAINREG_protocol_support_models
+#print axioms MAINREG_config_before_sockets
+#print axioms MAINREG_config_before_sockets_gen
+#print axioms MAINREG_run
+#print axioms MAINREG_list_plugins_is_pure
